@@ -25,9 +25,9 @@ class LiftPP(Lift):
     """Lift with an explicit preprocessor configuration: `defs` are added to / `undefs` removed from the build's defines before
     #if resolution.  (vx.lift.Lift.run always uses the build configuration; this subclass repeats its pipeline.)"""
 
-    def __init__(self, *a, defs=None, undefs=(), **k):
+    def __init__(self, *a, defs=None, undefs=(), loops_optional=False, **k):
         Lift.__init__(self, *a, **k)
-        self.defs, self.undefs = dict(defs or {}), tuple(undefs)
+        self.defs, self.undefs, self.loops_optional = dict(defs or {}), tuple(undefs), loops_optional
 
     def run(self):
         if self.fragment_end:
@@ -48,7 +48,15 @@ class LiftPP(Lift):
         body = L.apply_rules(body, self.post)
         if self.generic:
             body = L.apply_rules(body, L.FALLBACK_RULES)
-        body, nloops = L.splice_loops(body, self.loops)
+        try:
+            body, nloops = L.splice_loops(body, self.loops)
+        except LiftError as e:
+            # a loop the contract was written for no longer exists (e.g. a wait loop was deleted): verify the text WITHOUT loop
+            # contracts for the missing loops -- the function contract then fails as an obligation instead of the unit being undecided
+            if not (self.loops_optional and re.search(r"found \d+ loops|only \d+ loops", str(e))):
+                raise
+            n = len(re.findall(r"\b(?:for|while)\s*\(|\bdo\s*\{", body))
+            body, nloops = L.splice_loops(body, {k: v for k, v in self.loops.items() if isinstance(k, int) and k <= n})
         if not self.keep_braces:
             body = body.strip()[1:-1]
         return {"text": body, "line": line, "file": self.src, "raw": raw, "nloops": nloops, "header": header}
@@ -313,13 +321,13 @@ UNITS = [
 ]
 
 LOOP_C1 = """
-__CPROVER_assigns(i, pos, g_rc_j, g_rc_x)
+__CPROVER_assigns(i, pos, GV.rc_j, GV.rc_x)
 __CPROVER_loop_invariant(i <= size && pos == size && size == mpi_data_.requests_.size)
 __CPROVER_loop_invariant(g_tomb == NOSLOT || g_tomb >= i)
 """
 # E_x = value at entry of the second loop (the first loop does not modify the vectors)
 LOOP_C2 = """
-__CPROVER_assigns(i, pos, g_r1, g_r2, g_c1, g_c2, g_tomb, g_c_err, g_c_req, g_rc_j, g_rc_x)
+__CPROVER_assigns(i, pos, GV)
 __CPROVER_loop_invariant(pos <= i && i <= size + 1 && pos <= size && size == mpi_data_.requests_.size && SIZES_EQ)
 __CPROVER_loop_invariant((__CPROVER_loop_entry(g_r1) == NOSLOT && __CPROVER_loop_entry(g_c1) == NOSLOT) ==> V_GONE)
 __CPROVER_loop_invariant(__CPROVER_loop_entry(g_r1) != NOSLOT ==> (g_r1 == g_c1 && g_r2 == g_c2 && g_tomb == NOSLOT && g_c_req == VR && g_r1 <= __CPROVER_loop_entry(g_r1)))
@@ -342,7 +350,7 @@ __CPROVER_assigns(event_handled, POLL_FRAME)
 __CPROVER_loop_invariant(ST_LEDGER && ST_COUNTERS)
 """
 LOOP_ST_DEQ = """
-__CPROVER_assigns(req_callback, mpi_data_.requests_.size, mpi_data_.callbacks_.size, g_r1, g_r2, g_c1, g_c2, g_tomb, g_c_err, g_c_req, g_rc_j, g_rc_x, g_push_v, g_inq)
+__CPROVER_assigns(req_callback, mpi_data_.requests_.size, mpi_data_.callbacks_.size, GV, GQ)
 __CPROVER_loop_invariant(ST_LEDGER)
 """
 L_POLL_ST = PL(POLL, r"polling_status poll_singlethreaded\(\)", rules=POLL_RULES, loops={1: LOOP_ST_DO, 2: LOOP_ST_DEQ, "count": 2})
@@ -360,37 +368,591 @@ __CPROVER_assigns(ready_callback_, MT_RDQ_FRAME, MT_INV_FRAME)
 __CPROVER_loop_invariant(MT_LEDGER && MT_COUNTERS && !mpi_data_.polling_vector_mtx_.held)
 """
 LOOP_MT_DO = """
-__CPROVER_assigns(event_handled, MT_VEC_FRAME, MT_MPI_FRAME, g_inready, g_ready_err, g_rq_enq_v)
-__CPROVER_loop_invariant(MT_LEDGER && MT_LOCKED)
+__CPROVER_assigns(event_handled, MT_VEC_FRAME, MT_MPI_FRAME, GR)
+__CPROVER_loop_invariant(MT_LEDGER && MT_COUNTERS && MT_LOCKED)
 """
 LOOP_MT_DEQ = """
 __CPROVER_assigns(req_callback, MT_VEC_FRAME)
-__CPROVER_loop_invariant(MT_LEDGER && MT_LOCKED)
+__CPROVER_loop_invariant(MT_LEDGER && MT_COUNTERS && MT_LOCKED)
 """
 LOOP_MT_CHUNK = """
-__CPROVER_assigns(vsize, req_init, num_completed, event_handled, g_r1, g_r2, g_c1, g_c2, g_tomb, g_c_err, g_c_req, g_rc_j, g_rc_x, MT_MPI_FRAME, g_inready, g_ready_err, g_rq_enq_v)
-__CPROVER_loop_invariant(MT_LEDGER && MT_LOCKED && req_init >= 0 && (size_t) req_init + (size_t) vsize == mpi_data_.requests_.size && g_cap_int == max_poll_requests && g_cap_status == max_poll_requests)
+__CPROVER_assigns(vsize, req_init, num_completed, event_handled, GV, MT_MPI_FRAME, GR)
+__CPROVER_loop_invariant(MT_LEDGER && MT_COUNTERS && MT_LOCKED && req_init >= 0 && (size_t) req_init + (size_t) vsize == mpi_data_.requests_.size && g_cap_int == max_poll_requests && g_cap_status == max_poll_requests)
 """
 LOOP_MT_FOR = """
-__CPROVER_assigns(i, g_r1, g_r2, g_c1, g_c2, g_tomb, g_c_err, g_c_req, g_rc_j, g_rc_x, g_inready, g_ready_err, g_rq_enq_v)
-__CPROVER_loop_invariant(MT_LEDGER_FOR && MT_LOCKED && 0 <= i && i <= num_completed && num_completed == g_ts_n && (size_t) req_init == g_ts_off && (size_t) req_size == g_ts_incount)
+__CPROVER_assigns(i, GV, GR)
+__CPROVER_loop_invariant(MT_LEDGER_FOR && MT_COUNTERS && MT_LOCKED && 0 <= i && i <= num_completed && num_completed == g_ts_n && (size_t) req_init == g_ts_off && (size_t) req_size == g_ts_incount)
 __CPROVER_loop_invariant(g_ts_off + g_ts_incount <= mpi_data_.requests_.size && (g_ts_k >= 0 ==> (g_ts_k < g_ts_n && g_ts_vidx < g_ts_incount)) && (PENDING == (g_ts_k >= i)))
 __CPROVER_loop_invariant(status_valid == (status == MPI_ERR_IN_STATUS) && (g_ts_k >= 0 ==> g_rep_code == (status == MPI_ERR_IN_STATUS ? g_ts_verr : MPI_SUCCESS)))
 """
 L_POLL_MT = PL(POLL, r"polling_status poll_multithreaded\(\)", rules=POLL_RULES,
                loops={1: LOOP_MT_RDY, 2: LOOP_MT_DO, 3: LOOP_MT_DEQ, 4: LOOP_MT_CHUNK, 5: LOOP_MT_FOR, 6: LOOP_MT_RDY, "count": 6})
-UNITS += [
-    Unit("poll.poll_multithreaded", "polling.c", defines=["U_POLL_MT", "MAX_POLL_REQUESTS=" + MAXPOLL], enforce="poll_multithreaded",
-         replace=["compact_vectors"], lifts=pl(add_vec=L_ADD_VEC, poll_mt=L_POLL_MT),
+for _case, _defs in (("testsome", ["CASE_TESTSOME"]), ("testany", ["CASE_TESTANY"])):
+    UNITS.append(Unit("poll.poll_multithreaded." + _case, "polling.c", defines=["U_POLL_MT", "MAX_POLL_REQUESTS=" + MAXPOLL] + _defs,
+         enforce="poll_multithreaded", replace=["compact_vectors"], lifts=pl(add_vec=L_ADD_VEC, poll_mt=L_POLL_MT),
          funcs=[F + "poll_multithreaded", F + "add_to_request_callback_vector"], min_obligations=200, solver=["--sat-solver", "cadical"],
-         doc="M+T+I (six loop contracts, one symbolic victim pair; other pollers interfere with all_in_flight_ and the ready queue): "
-             "hand-over to the ready queue at most once and only after MPI_Testsome/MPI_Testany reported ITS request, with MPI's code, "
-             "request slot nulled; a ready callback is invoked exactly once by whoever dequeues it; counters down by one per invocation; "
-             "vectors touched only under polling_vector_mtx_, consistent at release, lock released on every path"),
+         no_replay=True,   # the bounded re-run the driver makes for replay (no loop contracts, --unwind 4, six nested loops) needs minutes
+         doc="M+T+I (six loop contracts, one symbolic victim pair; other pollers interfere with all_in_flight_ and the ready queue; case "
+             "max_polling_requests %s): hand-over to the ready queue at most once and only after MPI reported ITS request, with MPI's "
+             "code, request slot nulled; a ready callback is invoked exactly once by whoever dequeues it; counters down by one per "
+             "invocation; vectors touched only under polling_vector_mtx_, consistent at release, lock released on every path"
+             % ("> 1 (MPI_Testsome in chunks)" if _case == "testsome" else "<= 1 (MPI_Testany)")))
+
+# ---------------------------------------------------------------------------------------------------------------
+# enabling / disabling polling
+
+
+def _regpoll(args, env):
+    un = env["h1"]
+    return "%sregister_polling_pool(%s)" % (un, env["args"]) if env["args"].strip() else "%sregister_polling()" % un
+
+
+TO_UNDERLYING = Call(r"(?:pika::)?detail::to_underlying", "((uint32_t)({0}))", None)
+DIGITSEP = Sub(r"(?<=[0-9a-fA-FbBxX])'(?=[0-9a-fA-F])", "", None)
+LC_RULES = [TO_UNDERLYING, YieldWhile(None)] + POLL_RULES + [
+    Sub(r"auto\s*\*\s*(\w+)\s*=\s*pool\.get_scheduler\(\)\s*;", r"struct sched *\1 = pool_get_scheduler(pool);", None),
+    Call(r"\b(\w+)->set_mpi_polling_functions", "sched_set_mpi_polling_functions({h1}, {0}, {1})", None),
+    Sub(r"\b(\w+)->clear_mpi_polling_function\(\)", r"sched_clear_mpi_polling_function(\1)", None),
+    Sub(r"&\s*(poll_singlethreaded|poll_multithreaded|get_work_count)\b", r"FN_\1", None),
+    Sub(r"\b(?:pika::)?resource::get_thread_pool\(", "resource_get_thread_pool(", None),
+    Sub(r"\bresource::get_partitioner\(\)\.get_default_pool_name\(\)", "resource_default_pool_name()", None),
+    Call(r"\b(un)?register_polling", _regpoll, None),
+    Sub(r"\b(\w+)\.empty\(\)", r"str_empty(\1)", None),
+    Sub(r"\bthrow\s+(?:mpi::)?exception\(\s*(\w+)\s*,[^;]*\)\s*;", r"{ vx_throw(\1); return; }", None),
+    Call(r"\bPIKA_THROW_EXCEPTION", "{ vx_throw(-1); return; }", None, stmt=True),
+    Sub(r"\bexception_mode::", "", None),
+]
+# the guard rules of POLL_RULES must see `return` statements produced by the throw lowering: run the throw rules first
+LC_RULES = [r for r in LC_RULES if not isinstance(r, Guard)] + [r for r in LC_RULES if isinstance(r, Guard)]
+LOOP_YIELD = """
+__CPROVER_assigns(GI, mpi_data_.all_in_flight_, LG.yields)
+__CPROVER_loop_invariant(LG.yields <= 2)
+"""
+DECODE_RULES = [TO_UNDERLYING] + NS_RULES
+LC_LIFTS = {
+    "e_exception_mode": Lift(POLL_H, r"enum exception_mode\b"),
+    "e_handler_method": Lift(POLL_H, r"enum class handler_method\b", rules=[DIGITSEP]),
+}
+DEC_LIFTS = {
+    "get_handler_method": Lift(POLL_H, r"inline handler_method get_handler_method\(", rules=DECODE_RULES),
+    "use_inline_request": Lift(POLL_H, r"inline bool use_inline_request\(", rules=DECODE_RULES),
+    "use_inline_completion": Lift(POLL_H, r"inline bool use_inline_completion\(", rules=DECODE_RULES),
+}
+
+
+def lc(**more):
+    d = dict(STRUCT_LIFTS)
+    d.update(LC_LIFTS)
+    d.update(more)
+    return d
+
+
+FX = POLL + ": pika::mpi::experimental::"
+UNITS += [
+    Unit("life.register_polling_pool", "lifecycle.c", defines=["U_REG_POOL"], enforce="register_polling_pool",
+         lifts=lc(register_polling_pool=PL(POLL, r"void register_polling\(pika::threads::detail::thread_pool_base& pool\)", rules=LC_RULES,
+                                           loops={1: LOOP_YIELD, "count": 1}, loops_optional=True),
+                  can_run_singlethreaded=PL(POLL, r"inline bool can_run_singlethreaded\(", rules=LC_RULES), **DEC_LIFTS),
+         funcs=[F + "register_polling(thread_pool_base&)", F + "can_run_singlethreaded"], min_obligations=10,
+         doc="T: scheduler hook installed exactly once, after all_in_flight_ was read as 0; poller matches single_thread_mode_"),
+    Unit("life.unregister_polling_pool", "lifecycle.c", defines=["U_UNREG_POOL"], enforce="unregister_polling_pool",
+         lifts=lc(unregister_polling_pool=PL(POLL, r"void unregister_polling\(pika::threads::detail::thread_pool_base& pool\)", rules=LC_RULES)),
+         funcs=[F + "unregister_polling(thread_pool_base&)"], min_obligations=5,
+         doc="T: hook cleared exactly once; the authors' assertions (nothing queued, nothing in flight) are the precondition"),
+    Unit("life.register_polling", "lifecycle.c", defines=["U_REG"], enforce="register_polling",
+         lifts=lc(register_polling=PL(POLL, r"void register_polling\(\)", rules=LC_RULES), **DEC_LIFTS),
+         funcs=[F + "register_polling()"], min_obligations=3,
+         doc="T: register_polling(pool) exactly once unless the handler method is yield_while, on the pool named get_pool_name()"),
+    Unit("life.unregister_polling", "lifecycle.c", defines=["U_UNREG"], enforce="unregister_polling",
+         lifts=lc(unregister_polling=PL(POLL, r"void unregister_polling\(\)", rules=LC_RULES), **DEC_LIFTS),
+         funcs=[F + "unregister_polling()"], min_obligations=3, doc="T: mirror image of register_polling()"),
+    Unit("life.start_polling", "lifecycle.c", defines=["U_START"], enforce="start_polling",
+         lifts=lc(start_polling=PL(POLL, r"void start_polling\(exception_mode errorhandler, std::string pool_name\)", rules=LC_RULES), **DEC_LIFTS),
+         funcs=[FX + "start_polling"], min_obligations=10,
+         doc="T+M: polling registered exactly once on normal return, under polling_vector_mtx_; nothing registered when it throws "
+             "(MPI not initialised, MPIX continuations unavailable); lock released on every path"),
+    Unit("life.stop_polling", "lifecycle.c", defines=["U_STOP"], enforce="stop_polling",
+         lifts=lc(stop_polling=PL(POLL, r"void stop_polling\(\)", rules=LC_RULES, loops={1: LOOP_YIELD, "count": 1}, loops_optional=True)),
+         funcs=[FX + "stop_polling"], min_obligations=10,
+         doc="T+M: hook cleared exactly once under the lock, then (in-flight counter read as 0) MPI finalised exactly once; error handler "
+             "freed iff installed; precondition = nothing queued or in flight (the authors' assertions in unregister_polling)"),
+]
+
+# ---------------------------------------------------------------------------------------------------------------
+# completion-mode decoding (F), mpi_helpers.hpp (T)
+
+
+class Lambda(Rule):
+    """(after specs/C03) `[caps](params) [mutable] { BODY }` -> `repl`.  The BODY is not part of the enclosing function's behaviour
+    (it runs when the closure is invoked); it is lifted as a unit of its own, located INSIDE the same enclosing function."""
+
+    def __init__(self, repl, n=1, params=r"[^()]*"):
+        self.repl, self.n, self.params = repl, n, params
+
+    def apply(self, text):
+        k = 0
+        rx = re.compile(r"\[([^\[\]]*)\]\s*\((%s)\)\s*(?:mutable\s*)?(?:->\s*[\w:<>]+\s*)?\{" % self.params)
+        while True:
+            m = rx.search(text)
+            if not m:
+                break
+            cl = match_close(text, m.end() - 1, "{", "}")
+            text = text[: m.start()] + self.repl + text[cl + 1:]
+            k += 1
+        self.check(k, "Lambda")
+        return text
+
+
+FWD_EMPTY_PACK = Sub(r",\s*std::forward<Ts>\(ts\)\s*\.\.\.", "", None)       # instantiation Ts... = <> (transform_mpi sends no value)
+FWD = Sub(r"std::forward<(?:[^<>()]|\([^()]*\))*>\((\w+)\)", r"\1", None)
+HELP_RULES = [
+    TO_UNDERLYING,
+    DropStmt(r"\bPIKA_DETAIL_DP", None),
+    Call(r"\bstatic_assert", "", None, stmt=True),
+    FWD_EMPTY_PACK, FWD,
+    Call(r"\bstd::make_exception_ptr", "{0}", None),
+    Call(r"\b(?:pika::)?mpi::exception", "mpi_exception({0})", None),
+    Sub(r"\bex::(\w+)", r"ex_\1", None),
+    Sub(r"(?:\w+::)*thread_priority::(\w+)", r"thread_priority_\1", None),
+    Sub(r"\bauto\s+(\w+)\s*=\s*([^;|]+?)\s*\|\s*([^;|]+?)\s*;", r"int \1 = vx_pipe(\2, \3);", None),      # sender | adaptor
+    Sub(r"\bop_state\.ts\s*=\s*\{\s*\}\s*;", "op_state_ts_reset(op_state);", None),
+    Sub(r"\bop_state\.completed\s*=(?!=)\s*([^;]+);", r"op_set_completed(op_state, \1);", None),
+    Sub(r"\bop_state\.status\s*=(?!=)\s*([^;]+);", r"op_set_status(op_state, \1);", None),
+    Guard(r"std::(?:lock_guard|unique_lock|scoped_lock)\s*(?:<[^;()]*>)?\s*(\w+)\s*[({]\s*op_state\.mutex\s*[)}]\s*;",
+          r"struct ulock \1 = ulock_make(&op_state->mutex);", r"ulock_dtor(&\1);", None),
+    Sub(r"\bop_state\.cond_var\.notify_one\(\)", "cv_notify_one(&op_state->cond_var)", None),
+    Sub(r"\bop_state\.", "op_state->", None),
+] + NS_RULES
+E_HM = {"e_handler_method": Lift(POLL_H, r"enum class handler_method\b", rules=[DIGITSEP])}
+L_BOOST = Lift(POLL_H, r"inline bool use_priority_boost\(", rules=DECODE_RULES)
+FH = HELP_H + ": pika::mpi::experimental::detail::"
+FP = POLL_H + ": pika::mpi::experimental::detail::"
+
+
+def hl(**more):
+    d = dict(E_HM)
+    d.update(more)
+    return d
+
+
+UNITS += [
+    Unit("mode.get_handler_method", "decode.c", defines=["U_GHM"], enforce="get_handler_method",
+         lifts=hl(get_handler_method=DEC_LIFTS["get_handler_method"]), funcs=[FP + "get_handler_method", FP + "enum handler_method"],
+         min_obligations=5, doc="F (full domain): method = bits 3..5; documented enumerator values and ranges"),
+    Unit("mode.use_priority_boost", "decode.c", defines=["U_BOOST"], enforce="use_priority_boost",
+         lifts=hl(use_priority_boost=L_BOOST), funcs=[FP + "use_priority_boost"], doc="F (full domain): bit 2"),
+    Unit("mode.use_inline_completion", "decode.c", defines=["U_INLINE_COMPLETION"], enforce="use_inline_completion",
+         lifts=hl(use_inline_completion=DEC_LIFTS["use_inline_completion"]), funcs=[FP + "use_inline_completion"], doc="F (full domain): bit 1"),
+    Unit("mode.use_inline_request", "decode.c", defines=["U_INLINE_REQUEST"], enforce="use_inline_request",
+         lifts=hl(use_inline_request=DEC_LIFTS["use_inline_request"]), funcs=[FP + "use_inline_request"], doc="F (full domain): bit 0"),
+]
+L_SVEH = Lift(HELP_H, r"void set_value_error_helper\(int mpi_status, Receiver&& receiver, Ts&&\.\.\. ts\)", rules=HELP_RULES)
+CB_LAMBDA = r"\[&op_state\]\(int status\) mutable"
+
+
+def in_fn(fn):
+    return r"void %s\(OperationState& op_state\)(?:(?!\n    template ).)*?" % fn
+
+
+UNITS += [
+    Unit("help.set_value_error_helper", "helpers.c", defines=["U_SVEH"], enforce="set_value_error_helper",
+         lifts=hl(set_value_error_helper=L_SVEH), funcs=[FH + "set_value_error_helper"], min_obligations=5,
+         doc="T: exactly one completion signal; set_value iff MPI_SUCCESS, else set_error(mpi::exception(status))"),
+    Unit("help.cb.continuation", "helpers.c", defines=["U_CB_CONT"], enforce="cb_continuation",
+         lifts=hl(set_value_error_helper=L_SVEH,
+                  cb_continuation=Lift(HELP_H, in_fn("add_continuation_request_callback") + CB_LAMBDA, rules=HELP_RULES)),
+         funcs=[FH + "add_continuation_request_callback::<lambda(int)>", FH + "set_value_error_helper"], min_obligations=5,
+         doc="T: the polling callback of handler_method::continuation signals the receiver exactly once with MPI's status"),
+    Unit("help.cb.new_task", "helpers.c", defines=["U_CB_NT"], enforce="cb_new_task",
+         lifts=hl(use_priority_boost=L_BOOST,
+                  cb_new_task=Lift(HELP_H, in_fn("add_new_task_request_callback") + CB_LAMBDA,
+                                   rules=[Lambda("VX_CLOSURE(op_state)", 1, params=r"\s*")] + HELP_RULES)),
+         funcs=[FH + "add_new_task_request_callback::<lambda(int)>"], min_obligations=5,
+         doc="T: error -> set_error once, now; success -> exactly one new task carrying the set_value closure, nothing signalled here"),
+    Unit("help.cb.new_task.task", "helpers.c", defines=["U_CB_NT_TASK"], enforce="cb_new_task_task",
+         lifts=hl(use_priority_boost=L_BOOST,
+                  cb_new_task_task=Lift(HELP_H, in_fn("add_new_task_request_callback") + r"ex::then\(\[&op_state\]\(\) mutable", rules=HELP_RULES)),
+         funcs=[FH + "add_new_task_request_callback::<lambda(int)>::<lambda()>"], min_obligations=3,
+         doc="T: the task body calls set_value exactly once"),
+    Unit("help.cb.suspend_resume", "helpers.c", defines=["U_CB_SR"], enforce="cb_suspend_resume",
+         lifts=hl(cb_suspend_resume=Lift(HELP_H, in_fn("add_suspend_resume_request_callback") + CB_LAMBDA, rules=HELP_RULES)),
+         funcs=[FH + "add_suspend_resume_request_callback::<lambda(int)>"], min_obligations=10,
+         doc="M+T: status and completion flag written under op_state.mutex, flag published before notify_one, exactly one notify, "
+             "receiver not signalled by the poller"),
+]
+for _nm, _fn in (("suspend_resume", "add_suspend_resume_request_callback"), ("new_task", "add_new_task_request_callback"),
+                 ("continuation", "add_continuation_request_callback")):
+    UNITS.append(Unit("help.add_cb." + _nm, "helpers.c", defines=["U_ADD_" + {"suspend_resume": "SR", "new_task": "NT", "continuation": "CONT"}[_nm],
+                                                                   "ADD_KIND=1"], enforce="add_cb",
+                      lifts=hl(add_cb=Lift(HELP_H, r"void %s\(OperationState& op_state\)" % _fn,
+                                           rules=[Lambda("VX_CALLBACK(1)", 1, params=r"int status")] + HELP_RULES)),
+                      funcs=[FH + _fn], min_obligations=3,
+                      doc="T: exactly one polling callback (the lambda verified as help.cb.%s) registered for the operation's own request" % _nm))
+
+# ---------------------------------------------------------------------------------------------------------------
+# transform_mpi.hpp: the internal receiver
+
+
+class TryCatchEP(Rule):
+    """(copied from specs/C03) pika::detail::try_catch_exception_ptr([&]() [mutable] { A }, [&](std::exception_ptr X) { B });
+    ->  try { A } catch (...) { int X = vx_current_exception(); B }   (contract of the helper: C03 unit errors.try_catch_exception_ptr)"""
+
+    def __init__(self, n=None):
+        self.n = n
+
+    def apply(self, text):
+        k = 0
+        rx = re.compile(r"pika::detail::try_catch_exception_ptr\s*\(")
+        while True:
+            m = rx.search(text)
+            if not m:
+                break
+            op = m.end() - 1
+            cl = match_close(text, op)
+            inner = text[op + 1:cl]
+            m1 = re.match(r"\s*\[&\]\s*\(\s*\)\s*(?:mutable\s*)?\{", inner)
+            if not m1:
+                raise LiftError("TryCatchEP: first argument is not a [&]() lambda")
+            a0 = m1.end() - 1
+            a1 = match_close(inner, a0, "{", "}")
+            m2 = re.match(r"\s*,\s*\[&\]\s*\(\s*std::exception_ptr\s+(\w+)\s*\)\s*\{", inner[a1 + 1:])
+            if not m2:
+                raise LiftError("TryCatchEP: second argument is not a [&](std::exception_ptr x) lambda")
+            b0 = a1 + 1 + m2.end() - 1
+            b1 = match_close(inner, b0, "{", "}")
+            if inner[b1 + 1:].strip():
+                raise LiftError("TryCatchEP: trailing text")
+            end = cl + 1
+            ms = re.match(r"\s*;", text[end:])
+            if ms:
+                end += ms.end()
+            text = text[:m.start()] + "try { %s } catch (...) { int %s = vx_current_exception(); %s }" % (
+                inner[a0 + 1:a1], m2.group(1), inner[b0 + 1:b1]) + text[end:]
+            k += 1
+        self.check(k, "TryCatchEP")
+        return text
+
+
+class IfConstexpr(Rule):
+    """`if constexpr (COND) { A } else { B }` -> A or B: template instantiation (which branch exists is decided by the instance)."""
+
+    def __init__(self, cond, take_then, n=1):
+        self.cond, self.take_then, self.n = cond, take_then, n
+
+    def apply(self, text):
+        k = 0
+        while True:
+            m = re.search(r"\bif\s+constexpr\s*\(\s*%s\s*\)\s*\{" % self.cond, text)
+            if not m:
+                break
+            a0 = m.end() - 1
+            a1 = match_close(text, a0, "{", "}")
+            me = re.match(r"\s*else\s*\{", text[a1 + 1:])
+            if not me:
+                raise LiftError("IfConstexpr: no else branch")
+            b0 = a1 + 1 + me.end() - 1
+            b1 = match_close(text, b0, "{", "}")
+            keep = text[a0:a1 + 1] if self.take_then else text[b0:b1 + 1]
+            text = text[:m.start()] + keep + text[b1 + 1:]
+            k += 1
+        self.check(k, "IfConstexpr")
+        return text
+
+
+class AssignStub(Rule):
+    """`LHS = EXPR;` -> `STUB(ARG, EXPR);` with EXPR delimited by the statement end (depth aware: EXPR may contain lambdas)."""
+
+    def __init__(self, lhs, repl, n=None):
+        self.lhs, self.repl, self.n = lhs, repl, n
+
+    def apply(self, text):
+        k, pos = 0, 0
+        rx = re.compile(self.lhs + r"\s*=(?!=)")
+        while True:
+            m = rx.search(text, pos)
+            if not m:
+                break
+            semi = L._stmt_end(text, m.end())
+            rep = self.repl % text[m.end():semi].strip()
+            text = text[:m.start()] + rep + text[semi:]
+            pos = m.start() + 1
+            k += 1
+        self.check(k, "AssignStub(%s)" % self.lhs)
+        return text
+
+
+def tr_rules(void_f=True):
+    return [
+        TryCatchEP(None),
+        Sub(r"\bauto\s+r\s*=\s*std::move\(\*this\)\s*;", "struct receiver vx_r = *self; struct receiver *r = &vx_r;", None),
+        Sub(r"\busing\s+\w+\s*=[^;]*;", "", None),
+        Sub(r"\bauto&\s*t\s*=\s*std::get<[^;]*;", "", None),
+        Call(r"\br\.op_state\.ts\.template emplace<[^()]*>", "op_state_ts_emplace(r->op_state); VX_THROW_POINT", None),
+        Sub(r"\bdispatch<Ts\.\.\.>\(r\)\s*;", "dispatch(r); if (vx_exc) VX_THROW_NOW;", None),
+        IfConstexpr(r"std::is_void_v<invoke_result_type>", void_f, None),
+        # std::apply([&](auto&... ts) mutable { [return] PIKA_INVOKE(F, ts..., REQ); }, t)  ->  call of the user's MPI function (may throw)
+        Sub(r"std::apply\(\s*\[&\]\(auto&\.\.\.\s*ts\)\s*mutable\s*\{\s*(?:return\s+)?PIKA_INVOKE\(\s*((?:(?!ts\.\.\.)[^;])*?),\s*ts\.\.\.,\s*([^;]*?)\)\s*;\s*\},\s*t\s*\)",
+            r"({ int vx_v = vx_invoke_mpi_f(\1, \2); if (vx_exc) return; vx_v; })", None),
+        # cond_var.wait(l, pred) is `while (!pred()) wait(l);` (condition_variable.hpp), predicate inlined
+        Sub(r"\br\.op_state\.cond_var\.wait\(\s*(\w+)\s*,\s*\[&\]\s*\(\s*\)\s*\{\s*return\s+([^;]+);\s*\}\s*\)\s*;",
+            r"while (!(\2)) { cv_wait(&r->op_state->cond_var, &\1); }", None),
+        Sub(r"\bthreads::detail::thread_data::scoped_thread_priority\s+\w+\(\w+\)\s*;", "((void) 0);", None),
+        Guard(r"std::unique_lock\s*(?:<[^;()]*>)?\s*(\w+)\s*[({]\s*r\.op_state\.mutex\s*[)}]\s*;",
+              r"struct ulock \1 = ulock_make(&r->op_state->mutex);", r"ulock_dtor(&\1);", None),
+        YieldWhile(None),
+        Sub(r"(?:mpi::detail::)?MPIX_Continue_cb_function\s*\*\s*(\w+)\s*=\s*&\s*(?:mpi::detail::)?(\w+)<operation_state>\s*;", r"int \1 = \2;", None),
+        AssignStub(r"\br\.op_state\.status", "op_set_status(r->op_state, %s)", None),
+        Sub(r"\br\.op_state\.", "r->op_state->", None),
+        Sub(r"\br\.op_state\b", "r->op_state", None),
+    ] + HELP_RULES + [TryCatch(None)]
+
+
+FT = TRAN_H + ": pika::transform_mpi_detail::operation_state::receiver::"
+TR_LIFTS = {"get_handler_method": DEC_LIFTS["get_handler_method"], "use_priority_boost": L_BOOST}
+LOOP_TRIG_YIELD = """
+__CPROVER_assigns(OG)
+__CPROVER_loop_invariant(OG.completions == __CPROVER_loop_entry(OG.completions))
+__CPROVER_loop_invariant(OG.sv == 0 && OG.se == 0 && OG.cb_reg == 0 && OG.cb_sig == 0 && OG.mpix_reg == 0 && OC.need_complete && OC.env_callback && !OG.shared && OC.on_pika_thread && vx_op == r->op_state)
+"""
+LOOP_TRIG_WAIT = """
+__CPROVER_assigns(OG, r->op_state->status, r->op_state->completed, r->op_state->mutex.held, g_completed_at_release, l.owns)
+__CPROVER_loop_invariant(OG.completions == __CPROVER_loop_entry(OG.completions))
+__CPROVER_loop_invariant(OG.sv == 0 && OG.se == 0 && OG.cb_reg == 1 && OG.cb_sig == 0 && OG.cb_kind == CB_suspend_resume && OG.mpix_reg == 0 && OC.need_complete && OC.env_callback && OG.shared && vx_op == r->op_state)
+__CPROVER_loop_invariant(l.owns && l.m == &r->op_state->mutex && r->op_state->mutex.held && OG.cb_req == r->op_state->request)
+__CPROVER_loop_invariant(r->op_state->completed ==> (OG.known_complete && r->op_state->status == OG.cb_status))
+"""
+L_TRIGGER = PL(TRAN_H, r"void trigger\(receiver& r\)", rules=tr_rules(), loops={1: LOOP_TRIG_YIELD, 2: LOOP_TRIG_WAIT, 3: LOOP_TRIG_WAIT, "count": 3},
+               loops_optional=True)
+UNITS += [
+    Unit("tmpi.dispatch.void_f", "transform.c", defines=["U_DISPATCH"], enforce="dispatch",
+         lifts=hl(dispatch=Lift(TRAN_H, r"void dispatch\(receiver& r\)", rules=tr_rules(True)), **TR_LIFTS),
+         funcs=[FT + "dispatch<Ts...> (F returns void)"], min_obligations=5,
+         doc="T: MPI function invoked once; nothing signalled (instance: the MPI function returns void)"),
+    Unit("tmpi.dispatch.int_f", "transform.c", defines=["U_DISPATCH", "F_RETURNS_INT"], enforce="dispatch",
+         lifts=hl(dispatch=Lift(TRAN_H, r"void dispatch\(receiver& r\)", rules=tr_rules(False)), **TR_LIFTS),
+         funcs=[FT + "dispatch<Ts...> (F returns int)"], min_obligations=5,
+         doc="T: MPI function invoked once; a returned error code -> set_error(mpi::exception(code)) exactly once"),
+    Unit("tmpi.trigger", "transform.c", defines=["U_TRIGGER"], enforce="trigger", lifts=hl(trigger=L_TRIGGER, **TR_LIFTS),
+         funcs=[FT + "trigger"], min_obligations=50,
+         doc="T+M over the whole mode domain (handler method x priority bit): exactly one completion is arranged -- set_value only "
+             "after poll_request returned true (eager / yield_while), or one registered polling callback of the method's kind, or "
+             "(suspend_resume) the task blocks only while the flag is unset under the mutex, and after seeing it signals once with "
+             "the status the callback published"),
+    Unit("tmpi.set_value.whole", "transform.c", defines=["U_SET_VALUE_FULL", "F_RETURNS_INT"], enforce="recv_set_value",
+         lifts=hl(recv_set_value=Lift(TRAN_H, r"constexpr void set_value\(Ts&&\.\.\. ts\) && noexcept", rules=tr_rules()),
+                  dispatch=Lift(TRAN_H, r"void dispatch\(receiver& r\)", rules=tr_rules(False)), trigger=L_TRIGGER, **TR_LIFTS),
+         funcs=[FT + "set_value", FT + "dispatch<Ts...> (F returns int)", FT + "trigger"], min_obligations=50,
+         doc="T (same contract as tmpi.set_value, but dispatch and trigger are the lifted BODIES, not their contracts: a failing input can be "
+             "replayed natively)"),
+    Unit("tmpi.set_value", "transform.c", defines=["U_SET_VALUE", "F_RETURNS_INT"], enforce="recv_set_value", replace=["dispatch", "trigger"],
+         lifts=hl(recv_set_value=Lift(TRAN_H, r"constexpr void set_value\(Ts&&\.\.\. ts\) && noexcept", rules=tr_rules()), **TR_LIFTS),
+         funcs=[FT + "set_value"], min_obligations=10,
+         doc="T: one start of the operation arranges EXACTLY ONE completion (dispatch and trigger by their contracts; exceptions of the "
+             "MPI function caught and turned into one set_error)"),
+]
+
+# ---------------------------------------------------------------------------------------------------------------
+# mpi_environment.cpp: init / finalize balance
+ENV_RULES = [
+    Sub(r"\benvironment::is_mpi_initialized\(\)", "({ bool vx_b = environment_is_mpi_initialized(); if (vx_exc) return 0; vx_b; })", None),
+    Sub(r"\bthrow\s+(?:mpi::)?exception\(\s*(\w+)\s*,[^;]*\)\s*;", r"{ vx_throw(\1); return 0; }", None),
+    Call(r"\bPIKA_THROW_EXCEPTION", "{ vx_throw(-1); return 0; }", None, stmt=True),
+    Sub(r"&provided\b", "VXPROVIDED", None), Sub(r"(?<![\w&])provided\b", "(*provided)", None), Sub(r"\bVXPROVIDED\b", "provided", None),
+]
+FE = ENV + ": pika::mpi::detail::environment::"
+L_IS_INIT = Lift(ENV, r"bool environment::is_mpi_initialized\(\)", rules=ENV_RULES[1:3])
+UNITS += [
+    Unit("env.is_mpi_initialized", "env.c", defines=["U_IS_INIT"], enforce="environment_is_mpi_initialized",
+         lifts={"is_mpi_initialized": L_IS_INIT}, funcs=[FE + "is_mpi_initialized"], min_obligations=3),
+    Unit("env.init", "env.c", defines=["U_INIT"], enforce="environment_init",
+         lifts={"is_mpi_initialized": L_IS_INIT, "init": Lift(ENV, r"int environment::init\(", rules=ENV_RULES)},
+         funcs=[FE + "init", FE + "is_mpi_initialized"], min_obligations=10,
+         doc="T: MPI_Init_thread only if MPI is not yet initialised; mpi_init_pika_ remembers exactly 'we initialised it'"),
+    Unit("env.finalize", "env.c", defines=["U_FINALIZE"], enforce="environment_finalize",
+         lifts={"pika_called_init": Lift(ENV, r"bool environment::pika_called_init\(\)"), "finalize": Lift(ENV, r"void environment::finalize\(\)")},
+         funcs=[FE + "finalize", FE + "pika_called_init"], min_obligations=5,
+         doc="T: MPI_Finalize exactly when pika initialised MPI and it is not yet finalised"),
+]
+
+# ---------------------------------------------------------------------------------------------------------------
+# transform_mpi_t::tag_fallback_invoke: how the mode bits shape the sender chain
+
+
+class Pipe(Rule):
+    """`A | B` (sender | adaptor, never `||`) -> vx_pipe(A, B).  Operands are delimited by the enclosing parenthesis / `return` / `=` on
+    the left and the enclosing parenthesis / `;` on the right (balanced scan)."""
+
+    def __init__(self, n=None):
+        self.n = n
+
+    def apply(self, text):
+        k = 0
+        while True:
+            m = re.search(r"(?<!\|)\|(?![|=])", text)
+            if not m:
+                break
+            # left operand
+            i, depth = m.start() - 1, 0
+            while i >= 0:
+                c = text[i]
+                if c in ")]}":
+                    depth += 1
+                elif c in "([{":
+                    if depth == 0:
+                        break
+                    depth -= 1
+                elif depth == 0 and (c in ";=" or text[max(0, i - 5):i + 1] == "return"):
+                    break
+                i -= 1
+            ls = i + 1
+            j, depth = m.end(), 0
+            while j < len(text):
+                c = text[j]
+                if c in "([{":
+                    depth += 1
+                elif c in ")]}":
+                    if depth == 0:
+                        break
+                    depth -= 1
+                elif depth == 0 and c == ";":
+                    break
+                j += 1
+            left, right = text[ls:m.start()].strip(), text[m.end():j].strip()
+            lead = text[ls:m.start()][: len(text[ls:m.start()]) - len(text[ls:m.start()].lstrip())]
+            text = text[:ls] + lead + "vx_pipe(%s, %s)" % (left, right) + text[j:]
+            k += 1
+        self.check(k, "Pipe")
+        return text
+
+
+MD_RULES = [
+    TO_UNDERLYING,
+    DropStmt(r"\bPIKA_DETAIL_DP", None),
+    Sub(r"\busing\s+(?:namespace\s+)?[\w:]+\s*;", "", None),
+    Sub(r"std::forward<(?:[^<>()]|\([^()]*\))*>\((\w+)\)", r"\1", None),
+    # [&]-captured locals of the enclosing function are shared with the lambda: file-scope variables of the template
+    Sub(r"\b(?:std::size_t|bool|execution::thread_priority)\s+(mode|completions_inline|requests_inline|p)\s*=", r"\1 =", None),
+    Lambda("VX_LAMBDA", None, params=r"auto&& sender"),
+    Sub(r"\bauto\s+f_completion\s*=\s*VX_LAMBDA\s*;", "", None),
+    Sub(r"\bunique_any_sender<>\s+(\w+)\s*\{\s*transform_mpi_detail::sender<[^;]*?>\s*\{([^;{}]*)\}\s*\}\s*;", r"struct snd \1 = make_tmpi_sender(\2);", None),
+    Sub(r"\bex::thread_pool_scheduler\{\s*&\s*resource::get_thread_pool\(get_pool_name\(\)\)\s*\}", "POOL_mpi", None),
+    Sub(r"\bex::thread_pool_scheduler\{\s*&\s*pika::detail::get_runtime_ptr\(\)->get_thread_manager\(\)\.default_pool\(\)\s*\}", "POOL_default", None),
+    Sub(r"\bex::with_priority\b", "ex_with_priority", None),
+    Sub(r"(?:\w+::)*thread_priority::(\w+)", r"thread_priority_\1", None),
+    Pipe(None),
+] + NS_RULES
+UNITS += [
+    Unit("tmpi.mode_dispatch", "modedispatch.c", enforce="transform_mpi_invoke",
+         lifts=hl(use_priority_boost=L_BOOST, use_inline_completion=DEC_LIFTS["use_inline_completion"], use_inline_request=DEC_LIFTS["use_inline_request"],
+                  default_pool_scheduler=Lift(HELP_H, r"inline auto default_pool_scheduler\(", rules=MD_RULES),
+                  mpi_pool_scheduler=Lift(HELP_H, r"inline auto mpi_pool_scheduler\(", rules=MD_RULES),
+                  f_completion=Lift(TRAN_H, r"auto f_completion = \[&\]\(auto&& sender\) mutable -> unique_any_sender<>", rules=[r for r in MD_RULES if not isinstance(r, Lambda)]),
+                  invoke=Lift(TRAN_H, r"tag_fallback_invoke\(transform_mpi_t, Sender&& sender, F&& f\)", rules=MD_RULES)),
+         funcs=[TRAN_H + ": pika::mpi::experimental::transform_mpi_t::tag_fallback_invoke(Sender&&, F&&)", FH + "default_pool_scheduler", FH + "mpi_pool_scheduler"],
+         min_obligations=10,
+         doc="F/T over the whole mode domain: chain = [continues_on(MPI pool | default pool, prio) iff bit 0 clear] transform_mpi(mode, f) "
+             "[continues_on(default pool, prio) iff bit 1 clear], prio = boost iff bit 2"),
 ]
 
 META = {
-    "trusted_base": [],
-    "assumptions": [],
-    "not_decided": [],
+    "explanation": "SLICE, decided on source text that this sandbox never compiled (PIKA_WITH_MPI=OFF, no mpi.h): the safety form of C20 -- "
+                   "'a transform_mpi sender arranges exactly one completion of its receiver, a polling callback is invoked exactly once and only "
+                   "after MPI reported ITS request complete, with MPI's code; the in-flight counter / global activity count move by exactly one per "
+                   "registered / completed request (activity count released only after the callback ran); polling is registered / cleared exactly "
+                   "once per start / stop' -- as per-function contracts (T/I/M/F) over lifted bodies, one symbolic victim (request, callback) pair.",
+    "trusted_base": [
+        "specs/C20/c20_mpi.h + the MPI_* stubs of c20.h / env.c: ASSUMED contract of the MPI library (MPI-4.1 3.7.5, 11.2): MPI_Test / MPI_Testany / "
+        "MPI_Testsome report only active (non-null) requests whose operation HAS completed, each at most once per call, never a null handle; "
+        "statuses[i].MPI_ERROR is meaningful only when the call returned MPI_ERR_IN_STATUS; completion may happen at any MPI call. NOT assumed: "
+        "that MPI replaces a completed handle by MPI_REQUEST_NULL (the proofs rely on pika nulling the slot). MPI_Initialized / MPI_Finalized "
+        "report the library state",
+        "c20.h abstract containers: std::vector<MPI_Request> / std::vector<mpi_callback_info> = size + identity tracking of ONE symbolic victim "
+        "pair (up to two slots each, a tombstone for the nulled request cell, one-entry read cache); every other cell unconstrained except "
+        "VX_ASSUME 'no other cell holds the victim's unique request handle / callback object' (MPI handles of outstanding operations are "
+        "distinct; unique_function is move-only)",
+        "c20.h moodycamel::ConcurrentQueue stubs: enqueue stores, try_dequeue returns some stored element or fails (also spuriously); another "
+        "poller may take the victim from the ready queue at any time (element conservation of the queue itself: C17, unverified dependency)",
+        "c20.h atomic_u32_*: std::atomic<uint32_t> all_in_flight_ as an indivisible word; in the multi-threaded units other threads may change "
+        "it before each access (own RMW steps counted in ghosts); A-SC",
+        "vx/prelude/monitor.h: spinlock / unique_lock / lock_guard as a ghost 'held' bit (A-LOCK); try_to_lock may fail",
+        "c20_op.h: receivers, senders, schedulers, closures, exception_ptr as opaque tokens; ex::schedule | ex::then | ex::start_detached run the "
+        "closure exactly once on the given scheduler (C03 / C10); pika::condition_variable::wait(lock, pred) == while (!pred()) wait(lock) "
+        "(condition_variable.hpp:236) with wait = release inside the suspension + re-acquire (C07); try_catch_exception_ptr (C03 unit)",
+        "c20_op.h vx_mon_acquire_hook: environment of the suspend/resume waiter = the registered polling callback may run whenever op_state.mutex "
+        "is free, with the effect proved for it in unit help.cb.suspend_resume (VX-free: a nondeterministic choice, no assumption)",
+        "transform.c vx_invoke_mpi_f: VX_ASSUME the user's MPI function leaves a non-null request (the authors assert exactly this right after the call)",
+        "rule UNINIT: `int a, b;` -> `int a = nondet_int(), b = nondet_int();` (CBMC's own meaning of an uninitialised local) -- workaround: "
+        "goto-instrument --dfcc 6.11 does not track a loop-body local that is written only through a pointer by a callee unless its declaration has an initialiser",
+        "ghost: vector sizes bounded by 10^6 (VX_BIG) so that int/uint32 index arithmetic of poll_multithreaded cannot overflow",
+    ],
+    "assumptions": [
+        "(a) the MPI library contract above is assumed, not verified",
+        "(b) the C++ compiler never saw libs/pika/async_mpi or libs/pika/mpi_base in this sandbox (PIKA_WITH_MPI=OFF, no mpi.h): no cxxcheck, "
+        "no header test covers this text; units are decided on lifted source text only",
+        "(c) preprocessor configuration verified: PIKA_DEBUG defined (superset of statements: debug-only register count and the authors' "
+        "assertions are in the text), OMPI_HAVE_MPI_EXT_CONTINUE undefined (no MPIX continuations: try_mpix_polling, the real "
+        "register_mpix_continuation / restart_mpix and the MPIX branch of start_polling are NOT covered), PIKA_HAVE_APEX and PIKA_HAVE_STDEXEC undefined",
+        "template instances: Ts... = <> for set_value_error_helper (transform_mpi sends no value); dispatch for an MPI function returning void and "
+        "one returning int; Receiver / Sender / F opaque",
+        "polling callbacks do not re-enter the poller's vectors while poll_singlethreaded runs (single-thread mode requires requests to be "
+        "transferred to a new task: can_run_singlethreaded)",
+        "A-CLOSED (census below): all_in_flight_, the activity count, requests_/callbacks_, the two queues and PIKA_INVOKE are touched only in lifted functions of mpi_polling.cpp",
+        "case split of poll_multithreaded on max_polling_requests (> 1 / <= 1): two units, together the whole domain",
+        "handler method restricted to the five documented values in tmpi.trigger / tmpi.set_value (an undocumented value reaches PIKA_UNREACHABLE: see not_decided)",
+    ],
+    "not_decided": [
+        "liveness: that a registered request is eventually polled / its callback eventually runs; that stop_polling's wait terminates "
+        "(it waits for all_in_flight_ == 0 AFTER clearing the scheduler hook and WHILE holding polling_vector_mtx_, which poll_multithreaded needs)",
+        "'received data is fully visible to the continuation': memory ordering between MPI's completion and the continuation (A-SC assumed)",
+        "the MPIX continuation configuration; create_pool / register_pool / init_resource_partitioner_handler; set_error_handler / pika_MPI_Handler",
+        "composition of the per-function contracts into 'for all interleavings of pollers and submitters' (history induction, DESIGN 3.4)",
+        "the continues_on / unique_any_sender plumbing of transform_mpi_t::tag_fallback_invoke (C03 / C18 material): only its mode decoding functions are under contract",
+        "PIKA_MPI_COMPLETION_MODE / set_completion_mode values whose bits 3..5 are 5..7 are not validated anywhere: trigger reaches PIKA_UNREACHABLE",
+        "debug-only register_polling_count_ is incremented by register_polling and never decremented (after the first start/stop cycle the "
+        "assertion in add_request_callback no longer detects 'polling not enabled')",
+    ],
+    "extraction_drops": [
+        "comments; PIKA_DETAIL_DP debug printing and `if constexpr (mpi_debug<N>.is_enabled()) { timers }` blocks; PIKA_LOG; static_assert",
+        "std::memory_order arguments (A-SC); attributes, noexcept, constexpr, inline; std::move / std::forward (moved-from state not modelled)",
+        "template parameters (instances listed under assumptions); scoped_thread_priority (priority restore) in trigger",
+        "everything behind a stub of c20.h / c20_op.h / env.c (listed in trusted_base)",
+    ],
 }
+
+def _same_contract(template, fn):
+    """a function that one unit proves (//@FUNC) and other units use through --replace-call-with-contract carries the SAME clause text in both
+    places of the template"""
+    def run():
+        t = open(os.path.join(os.path.dirname(os.path.abspath(__file__)) if "__file__" in globals() else "/verif/specs/C20", template)).read()
+        norm = []
+        for m in re.finditer(r"^(?:void|int|bool) %s\([^)\n]*\)\n" % fn, t, re.M):
+            rest = t[m.end():]
+            e = re.search(r"^(?://@LIFT|;|\{)", rest, re.M)
+            blk = rest[:e.start()] if e else ""
+            if "__CPROVER_ensures" in blk:
+                norm.append(re.sub(r"/\*.*?\*/|\s+", "", blk, flags=re.S))
+        ok = len(norm) >= 2 and all(n == norm[0] for n in norm)
+        return ok, "contract text of %s in %s: %d copies, %s" % (fn, template, len(norm), "identical" if ok else "DIFFERENT or missing")
+    run.fact_name = "contract copies of %s" % fn
+    return run
+
+
+STATIC = [
+    _same_contract("polling.c", "compact_vectors"),
+    _same_contract("transform.c", "dispatch"),
+    _same_contract("transform.c", "trigger"),
+    census.enum("polling_status", "libs/pika/threading_base/include/pika/threading_base/scheduler_base.hpp", "polling_status", {"idle": 0, "busy": 1}),
+    # A-CLOSED: every mutator of the shared state is inside a lifted function
+    census.sites("all_in_flight_ RMW sites", [POLL], r"(\+\+|--)\s*(?:detail::)?mpi_data_\.all_in_flight_", 4,
+                 "add_to_request_callback_queue (++), poll_multithreaded (-- x2), poll_singlethreaded (--)"),
+    census.sites("all_in_flight_ other writes", [POLL], r"mpi_data_\.all_in_flight_\s*(?:=(?!=)|\+=|-=|\.store|\.exchange|\.fetch_)", 0),
+    census.sites("global activity count sites", [POLL], r"\b(?:in|de)crement_global_activity_count\(\)", 4),
+    census.sites("requests_/callbacks_ structural mutators", [POLL], r"mpi_data_\.(?:requests_|callbacks_)\.(?:push_back|emplace_back|resize|clear|erase|pop_back|insert|assign|swap)\b", 4,
+                 "add_to_request_callback_vector (push_back x2), compact_vectors (resize x2)"),
+    census.sites("requests_/callbacks_ element stores", [POLL], r"mpi_data_\.(?:requests_|callbacks_)\[[^\]]*\]\s*=(?!=)", 5,
+                 "compact_vectors x2, poll_multithreaded x2, poll_singlethreaded x1"),
+    census.sites("callback invocations", [POLL], r"\bPIKA_INVOKE\(", 3, "poll_multithreaded x2, poll_singlethreaded"),
+    census.sites("ready queue producers/consumers", [POLL], r"mpi_data_\.ready_requests_\.(?:enqueue|try_dequeue)\b", 4),
+    census.sites("request queue producers/consumers", [POLL], r"mpi_data_\.request_callback_queue_\.(?:enqueue|try_dequeue)\b", 3),
+    census.sites("scheduler hook clear sites", [POLL], r"->clear_mpi_polling_function\(\)", 1),
+]
